@@ -267,7 +267,7 @@ func c04BeyondEval(cs *core.Case) (bool, string, string) {
 		spare[i] = 0x5A
 	}
 	snapshot := append([]byte{}, buf...)
-	got := resultKey(detect(buf, cs.Limit))
+	got := resultKey(detectRaw(buf, cs.Limit))
 	if got != base {
 		return false, "C04/bytes-beyond-limit-change-answer", fmt.Sprintf("input %s limit %d: %s; with the bytes beyond the limit replaced by 0x%02X: %s", core.Quote(cs.In), L, base, cs.Ints[0], got)
 	}
@@ -290,8 +290,8 @@ func c04BufEval(cs *core.Case) (bool, string, string) {
 	for i := range spare {
 		spare[i] = 0x5A
 	}
-	a := resultKey(detect(buf, cs.Limit))
-	b := resultKey(detect(buf, cs.Limit))
+	a := resultKey(detectRaw(buf, cs.Limit))
+	b := resultKey(detectRaw(buf, cs.Limit))
 	if a != b {
 		return false, "C04/repeat-differs", fmt.Sprintf("two consecutive detections of %s differ: %s vs %s", core.Quote(cs.In), a, b)
 	}
